@@ -186,6 +186,7 @@ package mvs
 //@   ensures result != nil
 //@ func mvs.get
 //@   requires root != nil
+//@   callsite ReqList: assert minimal-requirements-have-no-forced-base: len($3) == 0
 //@   callsite Compare: assert decides-against-the-selected-version: exists j: int :: 0 <= j && j < len(buildList) && buildList[j].Version == $0
 //@   modifies heap, smap
 
